@@ -71,6 +71,10 @@ class MiniEval:
 
     # --------------------------------------------------------------- function
     def call_function(self, fn: ast.FunctionDef, args: list, kwargs: dict | None = None) -> Any:
+        q_ = getattr(fn, '_qualname', None)
+        if q_:
+            from .loader import EXECUTED
+            EXECUTED.add(q_)
         env: dict[str, Any] = {}
         params = [a.arg for a in (*fn.args.posonlyargs, *fn.args.args)]
         defaults = fn.args.defaults
